@@ -12,6 +12,11 @@
 (*   listidx  for i in range(3): u AOP= l[i] ; u AOP= l[a]                  *)
 (*   swapuse  u, v = E1, E2; u, v = v, u OP v; return u OP v                *)
 (*   ifaug    u = E; if B: u AOP= F else: v-style second variable           *)
+(*   opgrid   return a OP b / a OP k / k OP a  for EVERY pair of argument     *)
+(*            widths 2..8 (<= 10 input bits), every arithmetic, bitwise,     *)
+(*            shift and comparison operator, several return widths: the      *)
+(*            operator x width grid of the translator (mixed widths are      *)
+(*            where its zero-extension rules live)                           *)
 (***************************************************************************)
 EXTENDS AstLib, FiniteSets, TLC, Json
 
@@ -55,8 +60,30 @@ SwapUse == {FunDef("f", SigB, <<[T |-> "Assign", targets |-> <<Tup(<<U, V>>)>>, 
 IfAug == {FunDef("f", SigI, <<Assign("u", e0), Assign("v", A), If(b1, <<Aug("u", aop, g), Assign("v", U)>>, <<Aug("v", "Add", CI(1))>>), Ret(Bin("BitXor", U, V))>>, rt) :
             e0 \in {B, CI(2)}, b1 \in BoolE, aop \in {"Add", "Sub", "BitOr"}, g \in {A, CI(3)}, rt \in {I4, TInt(8)}}
 
+Widths == 2..8
+WPairs == {<<x, y>> \in Widths \X Widths : x + y <= 10}
+MaxW(x, y) == IF x > y THEN x ELSE y
+Arith == {"Add", "Sub", "Mult", "BitAnd", "BitOr", "BitXor"}
+Cmps == {"Eq", "NotEq", "Lt", "LtE", "Gt", "GtE"}
+Consts == {0, 1, 2, 3, 5, 6, 7, 12}
+Sig2(x, y) == <<Arg("a", TInt(x)), Arg("b", TInt(y))>>
+Sig1(x) == <<Arg("a", TInt(x))>>
+OpGrid ==
+  UNION {{FunDef("f", Sig2(w[1], w[2]), <<Ret(Bin(op, A, B))>>, TInt(rw)) : op \in Arith, rw \in {MaxW(w[1], w[2]), 16}} : w \in WPairs}
+  \cup {FunDef("f", Sig2(w[1], w[2]), <<Ret(Cmp(op, A, B))>>, TBool) : w \in WPairs, op \in Cmps}
+  \cup UNION {{FunDef("f", Sig1(x), <<Ret(Bin(op, A, CI(k)))>>, TInt(rw)) : op \in Arith, k \in Consts, rw \in {x, 12}} : x \in Widths}
+  \cup UNION {{FunDef("f", Sig1(x), <<Ret(Bin(op, CI(k), A))>>, TInt(rw)) : op \in {"Add", "Sub", "Mult", "BitXor"}, k \in Consts, rw \in {x, 12}} : x \in Widths}
+  \cup {FunDef("f", Sig1(x), <<Ret(Cmp(op, A, CI(k)))>>, TBool) : x \in Widths, op \in Cmps, k \in Consts}
+  \cup {FunDef("f", Sig1(x), <<Ret(Cmp(op, CI(k), A))>>, TBool) : x \in Widths, op \in Cmps, k \in Consts}
+  \cup UNION {{FunDef("f", Sig1(x), <<Ret(Bin(op, A, CI(k)))>>, TInt(rw)) : op \in {"LShift", "RShift"}, k \in {0, 1, 2, 3}, rw \in {x, 12}} : x \in Widths}
+  \cup {FunDef("f", Sig1(x), <<Ret(Bin("Mod", A, CI(k)))>>, TInt(x)) : x \in Widths, k \in {1, 2, 4, 8}}
+  \cup UNION {{FunDef("f", Sig1(x), <<Ret(Un(op, A))>>, TInt(rw)) : op \in {"Invert", "USub"}, rw \in {x, 12}} : x \in Widths}
+  \cup {FunDef("f", Sig2(w[1], w[2]), <<Ret(Bin(op2, Bin(op, A, B), A))>>, TInt(12)) : w \in {v \in WPairs : v[1] + v[2] <= 8},
+            op \in {"Add", "Sub", "BitXor"}, op2 \in {"Add", "Sub", "Mult"}}
+
 Pool == CASE Family = "loopif" -> LoopIf [] Family = "elif" -> Elif [] Family = "nested" -> Nested
           [] Family = "listidx" -> ListIdx [] Family = "swapuse" -> SwapUse [] Family = "ifaug" -> IfAug
+          [] Family = "opgrid" -> OpGrid
 Init == p \in Pool
 Next == FALSE /\ p' = p
 Spec == Init /\ [][Next]_p
